@@ -90,10 +90,12 @@ def step (line : String) : String :=
   | [req, impl] =>
     match words req with
     | ["auth", path, sasl, envs] =>
+      let addrOk := !(path.endsWith "!addr")
+      let path := if addrOk then path else (path.dropEnd 5).toString
       let p? : Option Path := if path == "dialer" then some .dialer else if path == "transport" then some .transport else none
       match p?, (commaList envs).mapM parseEnv with
       | some p, some es =>
-        let c : Cfg := ⟨p, sasl == "1"⟩
+        let c : Cfg := { path := p, sasl := sasl == "1", addrOk := addrOk }
         let model := match run c es with
           | some s => showState s
           | none => match firstRejected c (start c) es 0 with
@@ -107,6 +109,8 @@ def step (line : String) : String :=
               -- with SASL configured the order monitor applies; without it nothing is demanded of the order
               (c.sasl == false || orderHolds seen) &&
               (!failed || (result.startsWith "err" && closed == "1")) &&
+              -- "dialling fails with an error and the connection is closed", whatever made it fail
+              (!result.startsWith "err" || closed == "1") &&
               (result != "ok" || (!failed && closed == "0")) &&
               (result == "ok" || result.startsWith "err")
             | none => false
